@@ -30,17 +30,7 @@ func c09Total(c *engine.Case, entry string, input []byte, fn func(in []byte) err
 	in := append(make([]byte, 0, len(input)+8), input...)
 	defer func() {
 		if e := recover(); e != nil {
-			st := string(debug.Stack())
-			site := "?"
-			for _, l := range strings.Split(st, "\n") {
-				if strings.HasPrefix(l, "github.com/brocaar/lorawan") {
-					site = l
-					if j := strings.Index(site, "("); j > 0 {
-						site = site[:j]
-					}
-					break
-				}
-			}
+			site := engine.PanicSite(string(debug.Stack()))
 			c.Fail("panic/"+entry+"/"+site, fmt.Sprintf("%s panics on input %x: %v", entry, input, e), nil)
 			ok = false
 		}
